@@ -111,8 +111,8 @@ func c14ConcScenarios() []*explore.Scenario {
 			d := c14NewConc(e)
 			a := d.msg(0, 1, 2)
 			b := d.msg(1, 7, 3)
-			delete(d.legal, "B") // B stays incomplete
-			d.shorts["C"] = []byte{0x40, 0x01}
+			delete(d.legal, c14Addr("B").String()) // B stays incomplete
+			d.shorts[c14Addr("C").String()] = []byte{0x40, 0x01}
 			d.spawn(func() { d.reader("r1") })
 			d.spawn(func() {
 				d.in.Inject(a[1], c14Addr("A"))
@@ -120,7 +120,7 @@ func c14ConcScenarios() []*explore.Scenario {
 				d.in.Inject(a[1], c14Addr("A"))
 				d.in.Inject(c14BadFrames[3], c14Addr("A"))
 				d.in.Inject(a[0], c14Addr("A"))
-				d.in.Inject(d.shorts["C"], c14Addr("C"))
+				d.in.Inject(d.shorts[c14Addr("C").String()], c14Addr("C"))
 				d.in.Inject(b[2], c14Addr("B"))
 			})
 			d.spawn(func() {
